@@ -303,6 +303,67 @@ def argument_position_faults(col, rng, n_exc):
                 judge_escape(col, e, got, kw, cell, 'fault while evaluating %s' % name, 'argument position ' + name)
 
 
+class _FaultyNode:
+    """a node of the TARGET whose attribute / item / method access raises the planted exception"""
+    def __init__(self, raiser):
+        self._raiser = raiser
+
+    @property
+    def prop(self):
+        raise self._raiser.exc
+
+    def __getitem__(self, k):
+        raise self._raiser.exc
+
+    def meth(self, *a):
+        raise self._raiser.exc
+
+
+class _FineNode:
+    prop = 1
+
+    def __getitem__(self, k):
+        return 2
+
+    def meth(self, *a):
+        return 3
+
+
+def target_raised_faults(col, rng, n_exc):
+    """the fault is raised BY THE TARGET while a T step is applied to it - directly, and in the rest of the path behind a
+    T-style * / ** (where only a PathAccessError of a child means "this child does not have the rest of the path").
+    Exception classes that are the native lookup error of the step ('.' AttributeError, '[' KeyError/IndexError/TypeError)
+    are left to C01/C02/C14 (they become PathAccessErrors, and misses behind a star); every other class must leave glom()
+    under the same rules as an exception raised by a callable in the spec."""
+    f = Raiser()
+    shapes = [
+        ('T-attr', lambda: T['one'].prop, (AttributeError,)), ('T-item', lambda: T['one']['k'], (KeyError, IndexError, TypeError)),
+        ('T-method', lambda: T['one'].meth(1), ()),
+        ('T-star-attr', lambda: T['items'].__star__().prop, (AttributeError,)),
+        ('T-star-item', lambda: T['items'].__star__()['k'], (KeyError, IndexError, TypeError)),
+        ('T-star-method', lambda: T['items'].__star__().meth(1), ()),
+        ('T-star-attr-then-more', lambda: T['items'].__star__().prop.real, (AttributeError,)),
+        ('T-starstar-method', lambda: T['wrap'].__starstar__().meth(1), ()),
+        ('T-star-in-list', lambda: ('groups', [T.__star__().prop]), (AttributeError,)),
+    ]
+    always = [c for c in CATALOGUE if c[0] in ('MyGlomErr', 'MyGlomErrInit', 'ValueError', 'UserErr')]
+    for name, mk, native in shapes:
+        for ename, mkexc in always + rng.sample(CATALOGUE, n_exc):
+            probe = mkexc()
+            if native and isinstance(probe, native):
+                continue
+            for cell, kw in matrix(probe):
+                e = mkexc()
+                f.exc = e
+                items = [_FineNode(), _FaultyNode(f), _FineNode()]
+                target = {'one': _FaultyNode(f), 'items': items, 'wrap': {'x': [_FineNode(), _FaultyNode(f)]}, 'groups': [items, items]}
+                got = call_base(G, target, mk(), **kw)
+                col.case(('target-raised', name, ename, cell), True)
+                col.count('faults_injected')
+                col.count('target_raised_faults')
+                judge_escape(col, e, got, kw, cell, 'fault raised by the target at %s' % name, 'target access ' + name)
+
+
 class Unreg:
     __slots__ = ()
 
@@ -353,5 +414,7 @@ def run(ctx):
         col.require('glom_detected_runs', 500)
     argument_position_faults(col, rng, 1 if not ctx.thorough else 6)
     col.require('argument_position_faults', 500)
+    target_raised_faults(col, rng, 2 if not ctx.thorough else 8)
+    col.require('target_raised_faults', 500)
     for i in range(ctx.n(700, 4000)):
         fault_cases(col, rng, 3 if not ctx.thorough else 5)
